@@ -1,6 +1,6 @@
 """C04 -- the verdict of a run, and its diagnosis, are exactly determined by what happened."""
 
-from . import runrules, nested, predicates, causes
+from . import runrules, nested, predicates, causes, common
 
 
 def check(ctx, rep):
@@ -13,10 +13,13 @@ def check(ctx, rep):
         "reads as set for every admissible timeout, why() names exactly the cause. R04.3 critical mapping of "
         "the nested form over path facts: success or non-critical => return the inherited verdict; critical "
         "and timed out => TimeoutError; critical failure => re-raise the very object returned by a critical "
-        "member's exception accessor. R04.4 the window wrapper never replaces a job's exception.")
+        "member's exception accessor. R04.4 the window wrapper never replaces a job's exception. R04.6 the "
+        "synchronous run() is transparent: it returns the value of driving co_run() once, unprotected and unwrapped. R04.7 (= R02.6) raised_exception(), which the run reads to tell a failure, is the exception of the job's own task for atomic jobs and nested schedulers alike.")
     rep.declined = ["which cause is reported when expiry, last completion and a critical failure share one loop iteration"]
     rep.trusted = ["T1", "T8"]
     causes.exit_verdict_flags(ctx, rep, "R04.1")
     causes.flag_tables(ctx, rep, "R04.2", "R04.5")
     nested.critical_mapping(ctx, rep, "R04.3")
     predicates.identity_flow(ctx, rep, "R04.4")
+    common.sync_wrapper(ctx, rep, "R04.6", "run")
+    predicates.outcome_tables(ctx, rep, "R04.7", names=("raised_exception",))
